@@ -740,7 +740,7 @@ func parseBlocks(fset *token.FileSet, path string, src []byte, pkgPath string) (
 					}
 				}
 				cur.Flags["has-modifies"] = true
-			case "fresh-arrays", "post-all", "pure", "lemma", "trusted", "overflow", "may-diverge", "opaque", "inline", "assume-contract", "sweep", "nosafety":
+			case "fresh-arrays", "post-all", "pure", "lemma", "hide-requires", "checked-requires", "trusted", "overflow", "may-diverge", "opaque", "inline", "assume-contract", "sweep", "nosafety":
 				cur.Flags[word] = true
 			default:
 				return nil, fmt.Errorf("%s:%d: unknown clause %q", path, line, word)
